@@ -30,7 +30,16 @@ func numBits(f float64) uint64 {
 }
 
 // ValSx: canonical encoding of a value, walking exported fields only.
-func ValSx(v *val.Val) Sx {
+// ValSx encodes an implementation value; a value that cannot even be read (a back end handed out a pointer to
+// something that is not a value) is encoded as the atom unreadable-value instead of taking the harness down.
+func ValSx(v *val.Val) (sx Sx) {
+	if pan, _ := protect(func() { sx = valSxRaw(v) }); pan {
+		return A("unreadable-value")
+	}
+	return sx
+}
+
+func valSxRaw(v *val.Val) Sx {
 	if v == nil {
 		return A("nil")
 	}
@@ -50,7 +59,7 @@ func ValSx(v *val.Val) Sx {
 	case types.KList:
 		xs := make([]Sx, len(v.List().V))
 		for i, e := range v.List().V {
-			xs[i] = ValSx(e)
+			xs[i] = valSxRaw(e)
 		}
 		return L(A("list"), TySx(v.Type), LS(xs))
 	case types.KMap:
@@ -61,7 +70,7 @@ func ValSx(v *val.Val) Sx {
 		var kvs []kv
 		for k, e := range v.Map().V {
 			ks := k.String()
-			kvs = append(kvs, kv{fmt.Sprintf("%d:%s", keyTag(k), ks), L(Int(keyTag(k)), Bytes(ks), ValSx(e))})
+			kvs = append(kvs, kv{fmt.Sprintf("%d:%s", keyTag(k), ks), L(Int(keyTag(k)), Bytes(ks), valSxRaw(e))})
 		}
 		sort.Slice(kvs, func(i, j int) bool { return kvs[i].k < kvs[j].k })
 		xs := make([]Sx, len(kvs))
@@ -72,14 +81,14 @@ func ValSx(v *val.Val) Sx {
 	case types.KObj:
 		xs := make([]Sx, len(v.Obj().V))
 		for i, e := range v.Obj().V {
-			xs[i] = ValSx(e)
+			xs[i] = valSxRaw(e)
 		}
 		return L(A("obj"), TySx(v.Type), LS(xs))
 	case types.KMaybe:
 		if v.Maybe().V == nil {
 			return L(A("maybe"), TySx(v.Type), A("none"))
 		}
-		return L(A("maybe"), TySx(v.Type), ValSx(v.Maybe().V))
+		return L(A("maybe"), TySx(v.Type), valSxRaw(v.Maybe().V))
 	case types.KFun:
 		return L(A("fun"), Name(v.Type.Fun().Name))
 	}
@@ -103,7 +112,8 @@ func deepTyped(v *val.Val, t *types.Type, path string) string {
 	if v.Type == nil {
 		return path + ": value without type"
 	}
-	if !types.Equals(v.Type, t) {
+	// the harness's own by-name structural comparison, not types.Equals (which the checker under test relies on)
+	if !refEq(FromGo(v.Type), FromGo(t)) {
 		return fmt.Sprintf("%s: dynamic type %s, expected %s", path, v.Type, t)
 	}
 	switch v.Type.Kind {
